@@ -303,9 +303,10 @@ def model_line(headers, data):
         if not nme:
             continue
         try:
-            d.decode(nme)
+            # "decodes" = decodes to TEXT: a few codecs (utf-7, unicode_escape) hand back lone surrogates, which are no characters (fix: ffd5db4)
+            d.decode(nme).encode("utf-8")
             ok.append(nme)
-        except (UnicodeDecodeError, LookupError):
+        except (UnicodeError, LookupError):
             pass
         except ValueError:
             return None      # e.g. NUL inside a codec name: outside the model (C01's subject)
@@ -317,10 +318,13 @@ def model_line(headers, data):
 
 JUNK = [b"", b"\x00", b"\xff\xfe", b"\xfe\xff\x00\x00", b"\xff\xfe\x00\x00", b"{\"a\":1}", b"  {\"version\":1}", b"<?xml version='1.0' encoding='utf-16'?><a/>",
         b"\xef\xbb\xbf<?xml version='1.0' encoding=\"u16\"?><a/>", b"<?xml encoding='GB2312'?><a/>", b"\x80\x81\x82", b"<a>\xe9</a>", b"\x4c\x6f\xa7\x94", b"<?xml\nversion='1.0'\nencoding='utf-8'\n?><a/>",
-        b"<?xml version='1.0' encoding='iso-8859-1' standalone='yes'?>\n<a>\xe9</a>", b"\x8f\x90\x9d\x81", b"<?xml version='1.0'?><?xml-stylesheet href='x'?><a/>", b"<!-- c --><a/>"]
+        b"<?xml version='1.0' encoding='iso-8859-1' standalone='yes'?>\n<a>\xe9</a>", b"\x8f\x90\x9d\x81", b"<?xml version='1.0'?><?xml-stylesheet href='x'?><a/>", b"<!-- c --><a/>",
+        # data that its declared codec decodes to a LONE SURROGATE
+        b"<?xml version='1.0' encoding='utf-7'?><a>x+2AA-y</a>", b"<?xml version='1.0' encoding='unicode_escape'?><a>x\\ud800y</a>", b"<a>+3/8-</a>", b"<a>\\udfff</a>"]
 HDRS = [{}, {"content-type": "application/xml"}, {"content-type": "text/xml"}, {"content-type": "text/plain"}, {"content-type": "application/json"}, {"content-type": ""},
         {"content-length": "5"}, {"content-type": "application/atom+xml;charset=UTF-8;x=y"}, {"content-type": "text/xml; charset='gb2312'"}, {"content-type": "application/feed+json; charset=utf-16"},
-        {"content-type": "application/xml; Charset = \"koi8-r\" "}, {"content-type": "image/svg+xml"}, {"content-type": "text/x+xml"}, {"content-type": "application/+xml"}, {"content-type": ";charset=utf-8"}]
+        {"content-type": "application/xml; Charset = \"koi8-r\" "}, {"content-type": "image/svg+xml"}, {"content-type": "text/x+xml"}, {"content-type": "application/+xml"}, {"content-type": ";charset=utf-8"},
+        {"content-type": "application/xml; charset=utf-7"}, {"content-type": "text/xml; charset=raw_unicode_escape"}]
 
 
 def correspondence(ctx):
